@@ -292,6 +292,8 @@ func RunShards(cfg *Config, ld *Loaded, shards []Shard, cvSample int) (*RunResul
 			res.Solver.Unknown += solver.Stats.Unknown
 			res.Solver.Retries += solver.Stats.Retries
 			res.Solver.Rescued += solver.Stats.Rescued
+			res.Solver.Diffed += solver.Stats.Diffed
+			res.Solver.Disagree += solver.Stats.Disagree
 			res.Solver.Dur += solver.Stats.Dur
 			if solver.Stats.MaxQuery > res.Solver.MaxQuery {
 				res.Solver.MaxQuery = solver.Stats.MaxQuery
